@@ -128,8 +128,13 @@ struct Config {
     gid: String,
     /// "unset" | "zero" | "own" | "other"
     pgroup: String,
-    /// "none" | "ok" | "fail"
+    /// pre-exec closures, in order, joined by '+': "none" | kinds "ok" (succeeds, sets the umask), "fail"
+    /// (Err(Os EXDEV)), "uncat" (Err(Uncategorized)), "timeout" (Err(Timeout)), "panic" (panics; the harness
+    /// is built with unwinding panics)
     closure: String,
+    /// disposition of SIGCHLD in the caller when it spawns: "default" | "ignore" (SIG_IGN) | "nocldwait"
+    /// (a handler installed with SA_NOCLDWAIT): the kernel then reaps children itself, wait4 says ECHILD
+    sigchld: String,
 }
 
 impl Config {
@@ -138,7 +143,9 @@ impl Config {
             bin: "helper".into(),
             args: vec![b"--exit=7".to_vec()],
             env: None,
-            inherit: None,
+            // (start build) every ordinary configuration runs with a process environment installed through
+            // H2; the one scenario without it is `uninitialised_env_scenario`
+            inherit: if WITH_START { Some(default_inherit()) } else { None },
             cwd: "unset".into(),
             stdio: [Sm::Unset; 3],
             closed: [false; 3],
@@ -146,6 +153,7 @@ impl Config {
             gid: "unset".into(),
             pgroup: "unset".into(),
             closure: "none".into(),
+            sigchld: "default".into(),
         }
     }
     fn to_json(&self) -> Value {
@@ -165,7 +173,7 @@ impl Config {
             "cwd": self.cwd,
             "stdio": self.stdio.iter().map(|m| m.name()).collect::<Vec<_>>(),
             "closed": (0..3).filter(|&k| self.closed[k]).collect::<Vec<_>>(),
-            "uid": self.uid, "gid": self.gid, "pgroup": self.pgroup, "closure": self.closure,
+            "uid": self.uid, "gid": self.gid, "pgroup": self.pgroup, "closure": self.closure, "sigchld": self.sigchld,
         })
     }
     fn from_json(v: &Value) -> Config {
@@ -187,6 +195,7 @@ impl Config {
             gid: s("gid", "unset"),
             pgroup: s("pgroup", "unset"),
             closure: s("closure", "none"),
+            sigchld: s("sigchld", "default"),
         }
     }
     /// the step that fails without any injection, with the errno Linux gives
@@ -195,8 +204,14 @@ impl Config {
         if self.cwd == "missing" {
             return Some(("child-chdir".into(), libc::ENOENT));
         }
-        if self.closure == "fail" {
-            return Some(("closure".into(), CLOSURE_ERRNO));
+        // the first closure that does not succeed ends the set-up; errno 0 = a failure without an errno
+        // (the caller then gets an error of any kind)
+        for kind in self.closure.split('+') {
+            match kind {
+                "fail" => return Some(("closure".into(), CLOSURE_ERRNO)),
+                "uncat" | "timeout" | "panic" => return Some(("closure".into(), 0)),
+                _ => {}
+            }
         }
         if let Some(rel) = self.bin.strip_prefix("rel:") {
             // execve runs in the child AFTER chdir: a relative path is resolved against the configured cwd
@@ -218,6 +233,10 @@ impl Config {
     fn drops_both_ids(&self) -> bool {
         self.uid == "nobody" && self.gid == "nobody"
     }
+}
+
+fn default_inherit() -> Vec<Vec<u8>> {
+    vec![b"INH=1".to_vec(), b"HOME=/nowhere".to_vec()]
 }
 
 /// relative program paths the harness lays out: (path, exists under the caller's cwd, exists under the configured cwd)
@@ -807,26 +826,59 @@ fn exec_case(ctx: &Ctx, sdir: &str, shm: *mut Shm, shard_pgid: i32, cfg: &Config
             };
         }
         let shm_addr = shm as usize;
-        match cfg.closure.as_str() {
-            "ok" => {
-                cmd.pre_exec(move || {
-                    let s = shm_addr as *mut Shm;
-                    (*s).closure_pid.store(libc::getpid(), SeqCst);
-                    (*s).closure_runs.fetch_add(1, SeqCst);
-                    libc::umask(CLOSURE_UMASK as libc::mode_t);
-                    Ok(())
-                });
+        for kind in cfg.closure.split('+') {
+            let kind = kind.to_string();
+            if kind == "none" {
+                continue;
             }
-            "fail" => {
-                cmd.pre_exec(move || {
-                    let s = shm_addr as *mut Shm;
-                    (*s).closure_pid.store(libc::getpid(), SeqCst);
-                    (*s).closure_runs.fetch_add(1, SeqCst);
-                    Err(tiny_std::Error::Os { msg: "pre-exec closure of the harness fails", code: Errno::new(CLOSURE_ERRNO) })
-                });
+            cmd.pre_exec(move || {
+                let s = shm_addr as *mut Shm;
+                (*s).closure_pid.store(libc::getpid(), SeqCst);
+                (*s).closure_runs.fetch_add(1, SeqCst);
+                match kind.as_str() {
+                    "ok" => {
+                        libc::umask(CLOSURE_UMASK as libc::mode_t);
+                        Ok(())
+                    }
+                    "fail" => Err(tiny_std::Error::Os { msg: "pre-exec closure of the harness fails", code: Errno::new(CLOSURE_ERRNO) }),
+                    "uncat" => Err(tiny_std::Error::Uncategorized("pre-exec closure of the harness fails without an errno")),
+                    "timeout" => Err(tiny_std::Error::Timeout),
+                    _ => panic!("pre-exec closure of the harness panics"),
+                }
+            });
+        }
+        // the caller's SIGCHLD disposition
+        match cfg.sigchld.as_str() {
+            "ignore" => {
+                libc::signal(libc::SIGCHLD, libc::SIG_IGN);
+            }
+            "nocldwait" => {
+                extern "C" fn on_chld(_: libc::c_int) {}
+                let mut sa: libc::sigaction = std::mem::zeroed();
+                sa.sa_sigaction = on_chld as *const () as usize;
+                sa.sa_flags = libc::SA_NOCLDWAIT | libc::SA_RESTART;
+                libc::sigemptyset(&mut sa.sa_mask);
+                libc::sigaction(libc::SIGCHLD, &sa, std::ptr::null_mut());
             }
             _ => {}
         }
+        // (start build) a caller whose tiny_std::env::ENV nobody initialised still has a real environment
+        let uninitialised_env = WITH_START && cfg.inherit.is_none();
+        if uninitialised_env {
+            libc::setenv(b"H_SPAWN_CALLER_ENV\0".as_ptr() as *const libc::c_char, b"1\0".as_ptr() as *const libc::c_char, 1);
+        }
+        let parent_environ: Vec<String> = {
+            extern "C" {
+                static environ: *const *const libc::c_char;
+            }
+            let mut v = Vec::new();
+            let mut p = environ;
+            while !p.is_null() && !(*p).is_null() {
+                v.push(hex(std::ffi::CStr::from_ptr(*p).to_bytes()));
+                p = p.add(1);
+            }
+            v
+        };
 
         // ---- the operation under test
         let mut plan = CasePlan { shm, caller, faults: faults.to_vec(), last_slot: usize::MAX, applied: vec![0; faults.len()] };
@@ -842,7 +894,7 @@ fn exec_case(ctx: &Ctx, sdir: &str, shm: *mut Shm, shard_pgid: i32, cfg: &Config
 
         let mut obs = json!({
             "caller": caller, "parent_ident": parent_ident, "raw_ident": raw_ident, "null_ident": path_ident("/dev/null"),
-            "parent_cwd": hex(&parent_cwd), "parent_umask": um as u64, "inheritable": inheritable,
+            "parent_cwd": hex(&parent_cwd), "parent_umask": um as u64, "inheritable": inheritable, "parent_environ": parent_environ,
             "parent_uid": libc::geteuid(), "parent_gid": libc::getegid(), "parent_pgid": libc::getpgid(0), "shard_pgid": shard_pgid,
         });
         let fork_pid = {
@@ -1065,14 +1117,29 @@ fn judge_ok(ctx: &Ctx, cfg: &Config, obs: &Value, r: &mut Report, rp: &Value) {
     // environment: exactly the provided entries; nothing given = (without `start`) Environment::None = empty
     // with `start`: nothing given = Environment::Inherit = the installed process environment (H2);
     // `envs(<empty iterator>)` is accepted either way (no entries / no-op)
-    let inherited: Vec<Vec<u8>> = if WITH_START { cfg.inherit.clone().unwrap_or_default() } else { Vec::new() };
+    // with `start` and nothing installed (no H2 call: the situation of every user of the `library` feature),
+    // "inherit" can only mean the caller's real environment
+    let uninitialised = WITH_START && cfg.inherit.is_none();
+    let inherited: Vec<Vec<u8>> = if uninitialised { strs(&obs["parent_environ"]) } else if WITH_START { cfg.inherit.clone().unwrap_or_default() } else { Vec::new() };
     let want_envs: Vec<Vec<Vec<u8>>> = match &cfg.env {
         None => vec![inherited],
         Some(v) if v.is_empty() => vec![Vec::new(), inherited],
         Some(v) => vec![v.clone()],
     };
     let got_env = strs(&h["env"]);
-    if !want_envs.contains(&got_env) {
+    if uninitialised && cfg.env.is_none() {
+        r.outcome(if want_envs.contains(&got_env) { "env-inherited-with-uninitialised-ENV" } else { "env-lost-with-uninitialised-ENV" });
+    }
+    if uninitialised && cfg.env.is_none() && !want_envs.contains(&got_env) {
+        r.violation(
+            "C13:spawn:env-differs:inherit-with-uninitialised-ENV",
+            format!(
+                "tiny-std built with `start` but without `symbols` (what the std-compatible `library` feature enables): nothing initialises tiny_std::env::ENV (there is no public initialiser; only tiny-std's own _start does), so Command's default Environment::Inherit passes envp = NULL — the child's environment is {} although the caller's has {} entries (e.g. H_SPAWN_CALLER_ENV=1)",
+                show(&got_env), want_envs[0].len()
+            ),
+            rp.clone(),
+        );
+    } else if !want_envs.contains(&got_env) {
         r.violation(
             "C13:spawn:env-differs",
             format!("child environment {} but configured {}{}", show(&got_env), show(&want_envs[0]), if cfg.env.is_none() && WITH_START { " (Environment::Inherit of the installed process environment)" } else { "" }),
@@ -1228,6 +1295,11 @@ fn judge_ok(ctx: &Ctx, cfg: &Config, obs: &Value, r: &mut Report, rp: &Value) {
         }
     }
     // wait
+    if cfg.sigchld != "default" {
+        // the kernel reaps the child itself: what wait reports then (ECHILD) is not spawn's or wait's doing
+        r.outcome("ok-sigchld-not-default-wait-not-judged");
+        return;
+    }
     let code = h["exit"].as_i64().unwrap_or(0);
     match obs["wait"]["ok"].as_i64() {
         Some(s) if s == (code & 0xff) << 8 => r.outcome("wait-returns-raw-wait-status"),
@@ -1471,9 +1543,16 @@ fn judge(ctx: &Ctx, cfg: &Config, faults: &[Fault], res: &Result<Value, String>,
             rp.clone(),
         );
     }
+    if must_fail && !obs["helper"].is_null() {
+        r.outcome("err-although-program-ran");
+        r.violation(&format!("C13:spawn:err-although-program-ran:{step}"), format!("step {step} failed, spawn returned {} — but the requested program was executed", obs["err"]), rp.clone());
+    }
     let accept: Vec<i32> = if either { vec![libc::EPERM] } else { expected_errnos.clone() };
     let code = obs["err"]["code"].as_i64();
     match code {
+        // a step that failed without an errno (a closure returning Uncategorized / Timeout, a closure that
+        // panicked): any error value tells the caller
+        _ if accept.contains(&0) => r.outcome("err-for-errnoless-step"),
         Some(c) if accept.iter().any(|&e| e as i64 == c) => r.outcome(if faults.is_empty() { "err-natural-errno-relayed" } else if faults[0].child { "err-child-step-errno-relayed" } else { "err-parent-step-errno" }),
         Some(c) if accept.iter().any(|&e| -(e as i64) == c) => {
             r.outcome("err-negative-errno");
@@ -1836,6 +1915,48 @@ fn program_paths() -> Vec<Config> {
     v
 }
 
+/// a few commands of different shape, to cross with the closure outcomes and the SIGCHLD dispositions
+fn shape_bases() -> Vec<Config> {
+    let base = Config::base();
+    vec![
+        base.clone(),
+        Config { stdio: [Sm::Pipe; 3], ..base.clone() },
+        Config { cwd: "dir".into(), uid: "current".into(), gid: "current".into(), pgroup: "zero".into(), ..base.clone() },
+        // the exec-report pipe lands on 1/2
+        Config { closed: [true; 3], stdio: [Sm::Inherit, Sm::Inherit, Sm::Null], ..base.clone() },
+        Config { stdio: [Sm::Inherit, Sm::Pipe, Sm::Std1], ..base.clone() },
+    ]
+}
+
+/// pre-exec closure outcomes {Ok, Err(Os), Err(Uncategorized), Err(Timeout), panic} as the only / first / second closure
+fn closure_family() -> Vec<Config> {
+    let specs = ["ok", "fail", "uncat", "timeout", "panic", "ok+fail", "ok+uncat", "ok+timeout", "ok+panic", "fail+ok", "uncat+ok", "timeout+ok", "panic+ok"];
+    let mut v = Vec::new();
+    for b0 in shape_bases() {
+        for sp in specs {
+            v.push(Config { closure: sp.into(), ..b0.clone() });
+        }
+    }
+    v
+}
+
+/// the caller ignores SIGCHLD (SIG_IGN / handler with SA_NOCLDWAIT): (with deviations, without)
+fn sigchld_family() -> (Vec<Config>, Vec<Config>) {
+    let (mut with, mut without) = (Vec::new(), Vec::new());
+    for disp in ["ignore", "nocldwait"] {
+        for b0 in shape_bases().into_iter().take(3) {
+            let c = Config { sigchld: disp.into(), ..b0 };
+            with.push(c.clone());
+            without.push(Config { bin: "missing".into(), ..c.clone() });
+            without.push(Config { cwd: "missing".into(), ..c.clone() });
+            for cl in ["fail", "uncat", "panic"] {
+                without.push(Config { closure: cl.into(), ..c.clone() });
+            }
+        }
+    }
+    (with, without)
+}
+
 fn descriptor_aliasing() -> Vec<Config> {
     let mut v = Vec::new();
     let grid = [Sm::Inherit, Sm::Null, Sm::Pipe, Sm::Raw];
@@ -1906,6 +2027,7 @@ fn product(thorough: bool) -> Vec<Config> {
                                 gid: if ids { "current" } else { "unset" }.into(),
                                 pgroup: if ids { "zero" } else { "unset" }.into(),
                                 closure: cl.into(),
+                                sigchld: "default".into(),
                             });
                         }
                     }
@@ -1945,6 +2067,20 @@ fn jobs(ctx: &Ctx) -> Vec<Job> {
     }
     for c in program_paths() {
         add(c, true, t, false, &mut out);
+    }
+    for c in closure_family() {
+        add(c, false, false, false, &mut out);
+    }
+    let (sig_faults, sig_plain) = sigchld_family();
+    for c in sig_faults {
+        add(c, true, t, !t, &mut out);
+    }
+    for c in sig_plain {
+        add(c, false, false, false, &mut out);
+    }
+    if WITH_START {
+        // the one scenario in which nobody has initialised tiny_std::env::ENV (no H2 call)
+        add(Config { inherit: None, ..Config::base() }, false, false, false, &mut out);
     }
     for c in ladders(t) {
         add(c, false, false, false, &mut out);
@@ -2008,6 +2144,8 @@ fn c13(args: &Args) -> Report {
     r.bound("shards", n_shards as u64);
     r.bound("deviations", if args.thorough { "every single call of parent and child x full errno menu for the single-factor configurations and the 125 stdio triples, x 1-2 errnos for the product; pairs (second deviation after the first, full menu) for the base command and the all-pipes command" } else { "every single call of parent and child x 1-2 errnos, for every configuration" });
     r.bound("args", "0..2 arguments incl. empty string and non-UTF-8 bytes; count ladder (fault-free) n = 0..=70 (thorough 0..=300) + {127,128,129,255,256,257,1000} (thorough + 511..513, 1023..1025, 4096), argument i = \"a<i>\"; the same ladder for provided environment entries \"E<i>=v<i>\"");
+    r.bound("closures", "pre-exec closure outcomes {Ok, Err(Os EXDEV), Err(Uncategorized), Err(Timeout), panic (unwinding)} as the only / first / second closure x 5 command shapes");
+    r.bound("sigchld", "caller's SIGCHLD disposition {SIG_IGN, handler + SA_NOCLDWAIT} x 3 command shapes x {fault-free, every child-side call failing, program missing, cwd missing, closure Err(Os)/Err(Uncategorized)/panic}; Child::wait is not judged there");
     r.bound("program_paths", "absolute; relative (9 shapes: with a directory part, with ./, bare names) present under the caller's cwd only / the configured cwd only / both / neither, x cwd {unset, a directory != the caller's cwd}; which copy runs is read from /proc/self/exe of the program");
     r.bound("descriptor_aliasing", "caller closed every non-empty subset of {0,1,2} before spawn x each stream in {Inherit, Null, MakePipe, RawFd(fresh file)} (448); one stream RawFd(k), k in 0..=2, the others in {Inherit, MakePipe, Null} (81); each fault-free, with a nonexistent program (execve ENOENT), and with every child-side call (close, fcntl F_DUPFD_CLOEXEC / F_SETFD, dup3, execve) failing (thorough: every call of both sides, full menus); the program reports 0/1/2 as exec left them");
     r.bound("repeated_deviations", "every interruptible call site (read of the sync pipe, dup3, wait4 on the failure path) answers EINTR 1,2,3,5 times in a row, matched by (syscall, descriptor)");
@@ -2015,7 +2153,7 @@ fn c13(args: &Args) -> Report {
     r.bound("env", if WITH_START { "nothing given (Inherit) over an installed process environment of {none, 0, 1, 2 entries}, envs(0..2 entries) over it (thorough: entry without '=', empty value, non-UTF-8, duplicate key, empty entry)" } else { "nothing given (None), envs(0..2 entries) (thorough: entry without '=', empty value, non-UTF-8, duplicate key, empty entry)" });
     r.bound("wall_s", (t0.elapsed().as_millis() as u64) as f64 / 1000.0);
     r.note(if WITH_START {
-        "built with tiny-std/start + verif-hooks: the default environment is Environment::Inherit, which reads the private static tiny_std::env::ENV.env_p; the harness installs process environments of 0..2 entries through hook H2 (verif_set_env) — without installing, the static is null in a std-linked binary and Inherit passes a NULL envp (= empty), which is also a case"
+        "built with tiny-std/start + verif-hooks: the default environment is Environment::Inherit, which reads the private static tiny_std::env::ENV.env_p; every ordinary configuration installs a process environment through hook H2 (verif_set_env) first; ONE scenario does not (the situation of every user of the std-compatible `library` feature): its child gets an empty environment, reported as C13:spawn:env-differs:inherit-with-uninitialised-ENV"
     } else {
         "built without tiny-std/start: Environment::Inherit does not exist; default environment is Environment::None"
     });
